@@ -28,13 +28,14 @@ static void shape(struct t_tree *t, cJSON *root)
 void h_u_mergepatch_b(void)
 {
     struct t_tree tt, tp; cJSON *target, *patch, *res; cJSON sp[3]; unsigned i, j, expect = 0;
-    char tk[3] = {0,0,0}; const cJSON *tn[3] = {0,0,0};
+    char tk[3] = {0,0,0}; const cJSON *tn[3] = {0,0,0}; int tobj;
     VF_INIT();
     global_hooks.allocate = vf_alloc; global_hooks.deallocate = vf_free; global_hooks.reallocate = NULL;
-    target = t_build(&tt, 0); patch = t_build(&tp, 0);
+    target = t_build_n(&tt, 0, MP_NT, 0); patch = t_build_n(&tp, 0, MP_NP, 0);
     shape(&tt, target); shape(&tp, patch);
     for (i = 0; i < 3; i++) if (i < tp.count) sp[i] = *tp.node[i];
     for (i = 1; i <= 2; i++) if (i <= tt.nchildren) { tk[i] = tt.key[i][0]; tn[i] = tt.node[i]; }
+    tobj = is_obj(target);
     {
         int target_was_obj = is_obj(target); unsigned tcount = tt.nchildren;
 
@@ -80,7 +81,7 @@ void h_u_mergepatch_b(void)
         }
     }
     for (i = 0; i < 3; i++) if (i < tp.count) { cJSON *n = tp.node[i]; __CPROVER_assert(n->next == sp[i].next && n->prev == sp[i].prev && n->child == sp[i].child && n->type == sp[i].type && n->string == sp[i].string && n->valuestring == sp[i].valuestring, "C18 the patch is never modified"); }
-    VF_COVER(is_obj(patch) && tp.nchildren == 2 && tt.nchildren == 2 && expect == 3);
-    VF_COVER(is_obj(patch) && !is_obj(target) && tp.nchildren == 1);
-    VF_COVER(!is_obj(patch));
+    VF_COVER(is_obj(patch) && expect == (MP_NT > MP_NP ? MP_NT : MP_NP));
+    VF_COVER(is_obj(patch) && (MP_NT > 0 || !tobj));
+    VF_COVER(MP_NP > 0 || !is_obj(patch));
 }
